@@ -320,7 +320,7 @@ func wsKeep(m *openfgav1.AuthorizationModel) *openfgav1.AuthorizationModel {
 
 // ---- workload ----
 
-var c02Names = []string{"Viewer", "VIEWER", "Doc", "M", "user", "group", "doc", "viewer", "editor", "model", "type", "a.b", "a/b", "x-y", "relation", "schema", "m", "extend", "module", "_x", "b1", "a.b/c"}
+var c02Names = []string{"Viewer", "VIEWER", "Doc", "M", "user", "group", "doc", "viewer", "editor", "model", "type", "a.b", "a/b", "x-y", "relation", "schema", "m", "extend", "module", "_x", "b1", "a.b/c", "acme/user-group", "can.view-all", "a-b.c", "x_1-y/z.w", "t-1"}
 var c02Idents = []string{"c1", "C1", "is_valid", "Is_Valid", "x-cond", "_c", "cond2", "non_expired", "C", "c", "c3", "c4", "k_1", "k-2"}
 var c02ParamTypes = []openfgav1.ConditionParamTypeRef_TypeName{
 	openfgav1.ConditionParamTypeRef_TYPE_NAME_BOOL, openfgav1.ConditionParamTypeRef_TYPE_NAME_STRING, openfgav1.ConditionParamTypeRef_TYPE_NAME_INT,
